@@ -113,7 +113,7 @@ def run(ctx):
     prog = ctx.prog
     ce = ConstEval(prog)
     spec = _load_spec()
-    ctx.clauses_decided = ["R1 one-based -> zero-based", "R2 column layouts", "R3 chemists' -> physicists'", "R4 triangular / block unpacking", "R5 permutation literals", "R6 labelled records attached by label", "R7 index maps of reshaping expressions (symbolic evaluation)", "R8 no placement by narrow counter fields", "R9 VASP coordinate-mode switch", "R10 deferred application of section data", "R11 Molden tag meaning (finite-domain evaluation)", "R12 block precedence in log scans", "R13 GRO box order (evaluated)", "R14 pass-through key collisions", "R15 MOL2 atom record fields (evaluated)"]
+    ctx.clauses_decided = ["R1 one-based -> zero-based", "R2 column layouts", "R3 chemists' -> physicists'", "R4 triangular / block unpacking", "R5 permutation literals", "R6 labelled records attached by label", "R7 index maps of reshaping expressions (symbolic evaluation)", "R8 no placement by narrow counter fields", "R9 VASP coordinate-mode switch", "R10 deferred application of section data", "R11 Molden tag meaning (finite-domain evaluation)", "R12 block precedence in log scans", "R13 GRO box order (evaluated)", "R14 pass-through key collisions", "R15 MOL2 atom record fields (evaluated)", "R16 PDB ATOM record fields (evaluated)"]
     ctx.clauses_declined = ["free-format and log-file parsers beyond R1/R3/R4/R5", "numerical accuracy of parsed values", "Fortran D exponents"]
 
     # ------------------------------------------------------------------ R2
@@ -586,6 +586,9 @@ def run(ctx):
     check_key_collisions(ctx, "R14")
     ctx.rule("R15", "MOL2 atom record: every optional trailing field is honoured (reader evaluated on model records)", "charges of a file that also carries status bits are all loaded as zero")
     check_mol2_atom_record(ctx, "R15")
+    ctx.rule("R16", "PDB ATOM record: every field reaches the slot of the same name; the element column is read in the spellings files use (evaluated)", "occupancy and temperature factor swapped, or a file with upper-case two-letter element symbols rejected")
+    check_pdb_atom_record(ctx, "R16")
+    check_pdb_conect_lookup(ctx, "R6")
 
 
 NARROW_POSITIVE = '''
@@ -917,3 +920,94 @@ def check_mol2_atom_record(ctx, rid):
         ctx.violate(rid, f"MOL2 atom record, {bad}", f, f.node, construct=f"mol2 atom record: {bad}"[:170])
     else:
         ctx.ok(rid, "MOL2 atom records with 6, 8, 9 and 10 fields: number, coordinates, type and charge arrive in their slots", f"{f.module.relpath}:{f.lineno}")
+
+
+def _pdb_atom_line(serial=7, name="CA", resname="GLY", chain="B", resnum=42, x=-11.125, y=22.25, z=-3.375, occ=0.75, bfac=12.5, element="C", record="ATOM"):
+    """A PDB ATOM / HETATM record laid out by the column table of the format (v3.3)."""
+    return f"{record:<6s}{serial:5d} {name:<4s} {resname:>3s} {chain:1s}{resnum:4d}    {x:8.3f}{y:8.3f}{z:8.3f}{occ:6.2f}{bfac:6.2f}          {element:>2s}  "
+
+
+def check_pdb_atom_record(ctx, rid):
+    """PDB ATOM record: every field of the format's column table arrives in the slot of the same name.
+
+    The record parser is evaluated on model records whose fields all differ (so a swap of two equal-width fields, e.g.
+    occupancy and temperature factor, shows) and whose element column takes the spellings real files use: right-
+    justified one-letter symbols, upper-case two-letter symbols (`CL`, `FE`), title case, blank (guessed from the atom
+    name) and an unknown symbol (atomic number 0 with a warning, no exception)."""
+    from ..accessors import AccessorEval, Raised, Rec
+    from ..symarr import NotSymbolic
+
+    prog = ctx.prog
+    f = prog.func("iodata.formats.pdb._parse_pdb_atom_line")
+    licls = prog.cls("iodata.utils.LineIterator")
+    cases = [
+        ("one-letter element", dict(element="C"), 6),
+        ("upper-case two-letter element", dict(element="CL", name="CL", resname="CL"), 17),
+        ("title-case two-letter element", dict(element="Fe", name="FE", resname="HEM", record="HETATM"), 26),
+        ("blank element column, atom name gives the element", dict(element="", name="N"), 7),
+        ("unknown element symbol", dict(element="XX", name="X1"), 0),
+    ]
+    bad = None
+    for label, kw, want_num in cases:
+        line = _pdb_atom_line(**kw)
+        lit = Rec(licls, filename="F", fh=iter([]), lineno=1, stack=[])
+        ev = AccessorEval(prog, licls, limit=2000)
+        ev.module = f.module
+        ev._globals = {("iodata.utils", "angstrom"): 1.0}
+        try:
+            res = ev.run_free(f, [line, lit], {})
+        except Raised as exc:
+            bad = f"{label} (`{line[76:78]}`): the parser raises {exc.args[0]} on a well-formed record"
+            break
+        except NotSymbolic as exc:
+            if "unbound" in str(exc).lower() or "name " in str(exc).lower():
+                bad = f"{label} (`{line[76:78]}`): the parser reads a variable that is not assigned on this path ({exc})"
+                break
+            raise AnalysisError(f"pdb._parse_pdb_atom_line is outside the evaluation whitelist: {exc}") from exc
+        atnum, atname, resname, chainid, resnum, atcoord, occ, bfac = res
+        d = dict(name="CA", resname="GLY", chain="B", resnum=42, x=-11.125, y=22.25, z=-3.375, occ=0.75, bfac=12.5)
+        d.update({k: v for k, v in kw.items() if k in d})
+        got = dict(name=atname, resname=resname, chain=chainid, resnum=resnum, x=float(atcoord[0]), y=float(atcoord[1]), z=float(atcoord[2]), occ=float(occ), bfac=float(bfac))
+        wrong = [k for k in d if got[k] != d[k]]
+        if wrong:
+            bad = f"{label}: field `{wrong[0]}` is loaded as {got[wrong[0]]!r}, the record says {d[wrong[0]]!r}"
+            break
+        if (atnum or 0) != want_num:
+            bad = f"{label} (`{line[76:78]}`): atomic number {atnum}, expected {want_num}"
+            break
+    if bad:
+        ctx.violate(rid, f"PDB ATOM record, {bad}", f, f.node, construct=f"pdb atom record: {bad}"[:170])
+    else:
+        ctx.ok(rid, f"PDB ATOM record: {len(cases)} model records (all fields distinct; element column in five spellings) are parsed field by field", f"{f.module.relpath}:{f.lineno}")
+
+
+def check_pdb_conect_lookup(ctx, rid):
+    """PDB CONECT records name atoms by their *serial number* (columns 7-11 of the ATOM record), which is not the
+    position of the atom in the file: a TER record takes a serial number, numbering may start anywhere.  The bond
+    endpoints stored by the loader must therefore be looked up in a table built from the serial column."""
+    prog = ctx.prog
+    f = prog.format_op("pdb", "load_one")
+    # containers filled from the serial column: C[int(line[6:11])] = ... / C.append(int(line[6:11]))
+    tables = set()
+    for n in f.own_nodes():
+        serial = lambda e: any(isinstance(x, ast.Subscript) and isinstance(x.slice, ast.Slice) and isinstance(x.slice.lower, ast.Constant) and x.slice.lower.value == 6 and isinstance(x.slice.upper, ast.Constant) and x.slice.upper.value == 11 for x in ast.walk(e))
+        if isinstance(n, ast.Assign) and len(n.targets) == 1 and isinstance(n.targets[0], ast.Subscript) and isinstance(n.targets[0].value, ast.Name) and serial(n.targets[0].slice):
+            tables.add(n.targets[0].value.id)
+        if isinstance(n, ast.Call) and isinstance(n.func, ast.Attribute) and n.func.attr == "append" and isinstance(n.func.value, ast.Name) and n.args and serial(n.args[0]):
+            tables.add(n.func.value.id)
+    ends = []
+    for n in f.own_nodes():
+        if isinstance(n, ast.Call) and isinstance(n.func, ast.Attribute) and n.func.attr == "append" and isinstance(n.func.value, ast.Name) and n.func.value.id == "bonds" and n.args and isinstance(n.args[0], (ast.List, ast.Tuple)) and len(n.args[0].elts) >= 2:
+            ends.append(n)
+    if not ends:
+        raise AnalysisError("pdb.load_one: the statement that stores a bond was not found")
+    for n in ends:
+        bad = []
+        for e in n.args[0].elts[:2]:
+            looked_up = (isinstance(e, ast.Subscript) and isinstance(e.value, ast.Name) and e.value.id in tables) or (isinstance(e, ast.Call) and isinstance(e.func, ast.Attribute) and e.func.attr in ("index", "get") and isinstance(e.func.value, ast.Name) and e.func.value.id in tables)
+            if not looked_up:
+                bad.append(src_of(e))
+        if bad:
+            ctx.violate(rid, f"pdb.load_one stores the bond endpoints `{', '.join(bad)}` without looking the CONECT serial numbers up in a table of the atoms' serial numbers (columns 7-11): with a TER record or a numbering that does not start at 1 the bonds are attached to other atoms", f, n)
+        else:
+            ctx.ok(rid, f"pdb.load_one: CONECT serial numbers are resolved through `{sorted(tables)}` (filled from columns 7-11 of the atom records)", f"{f.module.relpath}:{n.lineno}")
